@@ -165,7 +165,7 @@ func lemmaKeysKeptApart(a, b string) (string, string) { return rKey(a), rKey(b) 
 
 // the optimistic transaction body of CasByVersion (run by rdb.Watch): the record written carries a new version
 //@ func (c *client) CasByVersion__1(tx *redis.Tx) error
-//@   props C02 C06
+//@   props C02 C03 C06
 //@   requires tx != nil
 //@   modifies everything
 // [C02] single CAS winner, the client's half: the body succeeds (and writes) only if the version the caller expects
